@@ -1386,6 +1386,9 @@ async fn create_task(
     if payload.tool != "bash" && payload.tool != "shell" {
         return StatusCode::BAD_REQUEST.into_response();
     }
+    if rip_kernel::json_nesting(&payload.args) > rip_kernel::MAX_PAYLOAD_NESTING {
+        return StatusCode::BAD_REQUEST.into_response();
+    }
 
     let engine: Arc<TaskEngine> = state.engine.tasks();
     let handle = engine.create_task(&payload);
